@@ -23,7 +23,7 @@ type c14 struct{ base }
 func init() {
 	core.Register(c14{base{id: "C14", level: "exploration", quickB: 16, thoroughB: 32,
 		rule:        "tables of 1-12 columns over {bool,int2,int4,int8,float4,float8,text,varchar,bytea,uuid,oid,date,timestamp,timestamptz,int4[],text[]}, 0-50 rows, NULL density 0-100%, encoded by the harness's own binary COPY encoder (19-byte header, rows, optional trailer); the stream is cut into CopyData messages: one message, every single cut position (exhaustive for streams <= 400 bytes), 1-byte messages, random multi-cuts, cuts inside header / field count / field length / value, empty CopyData messages interleaved; rows returned by the library's row reader must equal the rows sent (value per type, NULL as nil) and end with io.EOF, identically for all splits; streams of 3L+ bytes (fields of 5-30 KB) are cut into messages of L, L-1, L-r bytes that arrive while 1-60 bytes of a row are still buffered. Every truncation point of small streams (<= 200 bytes) followed by CopyDone: clean end exactly on row boundaries, error elsewhere. Corruptions (a well-framed array value whose own header lies, a well-framed value of an impossible size for its fixed-width type, field count +-1, 0, field length beyond the stream, length -2, stream ending mid-row, trailer mid-stream): a non-EOF error (or early EOF for the trailer), rows before it a prefix of the rows sent, no crash (child process). Non-trivial = split inside a row, trailer present, NULLs, or a corruption; distinct = (column types, rows, cut-set class, corruption).",
-		need:        []string{"near_limit_messages", "streams_run", "rows_compared", "split_inside_row", "with_trailer", "single_cut_positions", "corruptions_run", "null_fields", "truncation_points"},
+		need:        []string{"near_limit_messages", "streams_run", "rows_compared", "split_inside_row", "with_trailer", "single_cut_positions", "corruptions_run", "null_fields", "truncation_points", "connections_lost_inside_a_copydata_message"},
 		assumptions: append([]string{"header flags and extension length are zero (standard header); a field longer than the message limit L is not generated"}, commonAssumptions...)}})
 }
 
@@ -492,6 +492,25 @@ func (ch c14) Run(c *core.Ctx) {
 				continue
 			}
 		}
+		// the connection is lost inside a CopyData message: everything before it ended on a row boundary, the
+		// message itself brought the first k bytes of the next row. A row that was cut short is an error to the
+		// handler, not the end of the stream
+		if len(stream) <= 200 && len(rowEnds) > 0 {
+			okL := true
+			bounds := append([]int{t.hdrLen()}, rowEnds[:len(rowEnds)-1]...)
+			for bi, b := range bounds {
+				next := rowEnds[bi]
+				for _, k := range []int{1, (next - b) / 2, next - b - 1} {
+					if k < 1 || k >= next-b || !okL {
+						continue
+					}
+					okL = ch.lostMid(c, env, t, stream, b, k, bi, cs)
+				}
+			}
+			if !okL {
+				continue
+			}
+		}
 		// one byte per message
 		if len(stream) <= 1500 {
 			cuts := make([]int, 0, len(stream))
@@ -667,6 +686,62 @@ func (ch c14) truncated(c *core.Ctx, env *hs.Env, t c14table, stream []byte, row
 	}
 	if !boundary && obs.End != "error" {
 		c.Violate("corruption-accepted", "truncated row or trailer reported as a clean end of stream", fmt.Sprintf("%s: reader end=%s, the cut is %d byte(s) past the last row boundary", what, obs.End, cut-lastBoundary(t.hdrLen(), rowEnds, cut)), cs)
+		return false
+	}
+	return true
+}
+
+// lostMid sends stream[:b] (b a row boundary) in one complete CopyData message, then a CopyData message that
+// declares the rest of the stream and carries k bytes of it, and ends the connection there.
+func (ch c14) lostMid(c *core.Ctx, env *hs.Env, t c14table, stream []byte, b, k, complete int, cs any) bool {
+	cols := wire.Columns{}
+	for j, o := range t.OIDs {
+		cols = append(cols, wire.Column{Name: fmt.Sprintf("c%d", j), Oid: oid.Oid(o), Width: -1})
+	}
+	plan := &hs.CopyPlan{Format: wire.BinaryFormat, MaxReads: -1, OnErr: "propagate", Binary: true}
+	sess := &hs.Sess{Progs: map[string]*hs.Prog{"copy": {Stmts: []*hs.Stmt{{ID: "copy", Cols: cols, Ops: []hs.Op{{K: "copy", Copy: plan}}}}}}}
+	cl := hs.NewClient(env.Dial(sess))
+	if err := cl.StartupOK("u"); err != nil {
+		c.Violate("startup", "startup failed", err.Error(), cs)
+		return false
+	}
+	in := append(pg.Query("copy"), pg.CopyData(stream[:b])...)
+	whole := pg.CopyData(stream[b:])
+	in = append(in, whole[:5+k]...)
+	cl.C.Send(in)
+	cl.Finish()
+	if hangCheck(c, cl, cs) {
+		return false
+	}
+	var rows [][]any
+	end, errTxt := "none", ""
+	for _, e := range cl.C.Events() {
+		if e.Kind == "cb" && e.Name == "copyread" {
+			switch r := e.Data.(hs.CopyRec); {
+			case r.ErrNil:
+				rows = append(rows, r.Row)
+			case r.EOF:
+				end = "eof"
+			default:
+				end, errTxt = "error", r.Err
+			}
+		}
+	}
+	c.Count("connections_lost_inside_a_copydata_message", 1)
+	what := fmt.Sprintf("%d complete row(s) in one CopyData message, then a CopyData message declaring %d bytes of which %d arrive before the connection ends", complete, len(stream)-b, k)
+	c.Eval(fmt.Sprintf("%v lost mid message rows=%d k=%d", t.OIDs, complete, k), true)
+	if len(rows) > complete {
+		c.Violate("fabricated-row", "more rows returned than the client completed before the connection was lost", fmt.Sprintf("%s: %d rows", what, len(rows)), cs)
+		return false
+	}
+	for i, r := range rows {
+		if d := c14rowEq(t.OIDs, r, t.Rows[i]); d != "" {
+			c.Violate("row-value", "row differs from what was sent", fmt.Sprintf("%s: row %d: %s", what, i, d), cs)
+			return false
+		}
+	}
+	if end == "eof" {
+		c.Violate("corruption-accepted", "a row cut short by the loss of the connection is reported as a clean end of stream", fmt.Sprintf("%s: the reader returned %d row(s) and then io.EOF (%s)", what, len(rows), errTxt), cs)
 		return false
 	}
 	return true
